@@ -35,7 +35,21 @@ func main() {
 	only := flag.String("only", "", "print only obligations whose key contains this string")
 	list := flag.Bool("list", false, "print every obligation")
 	noControls := flag.Bool("nocontrols", false, "skip the self-test overlays")
+	e1dump := flag.String("e1dump", "", "debug: print E1 summaries of functions whose name contains this string")
 	flag.Parse()
+	if *e1dump != "" {
+		c := Load(*repo, "", nil)
+		e := NewE1(c)
+		e.Run()
+		for _, fn := range e.order {
+			if strings.Contains(c.FnName(fn), *e1dump) {
+				e.Dump(fn)
+			}
+		}
+		fmt.Println("external:", e.External)
+		fmt.Println("unresolved:", e.Unres)
+		return
+	}
 	if t := os.Getenv("VERIF_TIER"); t != "" && !flagSet("tier") {
 		*tier = t
 	}
